@@ -1051,6 +1051,72 @@ fn append_arguments_for_globals(
     }
 }
 
+/// Generate a statement that copies a value of the given type
+///
+/// Arrays are copied element by element with a loop for each dimension
+fn generate_copy_statement(
+    destination: ast::Expression,
+    source: ast::Expression,
+    type_id: ir::TypeId,
+    depth: u32,
+    context: &GenerateContext,
+) -> ast::Statement {
+    let unmodified_id = context.module.type_registry.remove_modifier(type_id);
+    let kind = match context.module.type_registry.get_type_layer(unmodified_id) {
+        ir::TypeLayer::Array(element_id, Some(length)) => {
+            let index_name = format!("__i{}", depth);
+            let index = || {
+                Box::new(Located::none(ast::Expression::Identifier(
+                    ast::ScopedIdentifier::trivial(&index_name),
+                )))
+            };
+            let element = |array: ast::Expression| {
+                ast::Expression::ArraySubscript(Box::new(Located::none(array)), index())
+            };
+            let body = generate_copy_statement(
+                element(destination),
+                element(source),
+                element_id,
+                depth + 1,
+                context,
+            );
+            ast::StatementKind::For(
+                ast::InitStatement::Declaration(ast::VarDef::one_with_expr(
+                    Located::none(index_name.clone()),
+                    ast::Type::from("uint"),
+                    Located::none(ast::Expression::Literal(ast::Literal::IntUnsigned32(0))),
+                )),
+                Some(Located::none(ast::Expression::BinaryOperation(
+                    ast::BinOp::LessThan,
+                    index(),
+                    Box::new(Located::none(ast::Expression::Literal(
+                        ast::Literal::IntUnsigned32(length),
+                    ))),
+                ))),
+                Some(Located::none(ast::Expression::UnaryOperation(
+                    ast::UnaryOp::PrefixIncrement,
+                    index(),
+                ))),
+                Box::new(ast::Statement {
+                    kind: ast::StatementKind::Block(Vec::from([body])),
+                    location: SourceLocation::UNKNOWN,
+                    attributes: Vec::new(),
+                }),
+            )
+        }
+        _ => ast::StatementKind::Expression(ast::Expression::BinaryOperation(
+            ast::BinOp::Assignment,
+            Box::new(Located::none(destination)),
+            Box::new(Located::none(source)),
+        )),
+    };
+    ast::Statement {
+        kind,
+        location: SourceLocation::UNKNOWN,
+        attributes: Vec::new(),
+    }
+}
+
 /// Generate the function body for the out/inout trampoline
 fn generate_function_out_trampoline_body(
     name: &str,
@@ -1074,6 +1140,16 @@ fn generate_function_out_trampoline_body(
         if param.param_type.input_modifier != ir::InputModifier::In {
             // TODO: Non conflicting local name generation
             let local_name = format!("__{}", input_name);
+            let is_array = {
+                let unmodified_id = context
+                    .module
+                    .type_registry
+                    .remove_modifier(param.param_type.type_id);
+                matches!(
+                    context.module.type_registry.get_type_layer(unmodified_id),
+                    ir::TypeLayer::Array(_, _)
+                )
+            };
             let (ty, declarator) = generate_type_and_declarator(
                 param.param_type.type_id,
                 &local_name,
@@ -1086,7 +1162,9 @@ fn generate_function_out_trampoline_body(
                     defs: Vec::from([ast::InitDeclarator {
                         declarator,
                         location_annotations: Vec::new(),
-                        init: if param.param_type.input_modifier == ir::InputModifier::InOut {
+                        init: if param.param_type.input_modifier == ir::InputModifier::InOut
+                            && !is_array
+                        {
                             Some(ast::Initializer::Expression(Located::none(
                                 ast::Expression::Identifier(ast::ScopedIdentifier::trivial(
                                     &input_name,
@@ -1101,19 +1179,24 @@ fn generate_function_out_trampoline_body(
                 attributes: Vec::new(),
             });
 
-            statements_after.push(ast::Statement {
-                kind: ast::StatementKind::Expression(ast::Expression::BinaryOperation(
-                    ast::BinOp::Assignment,
-                    Box::new(Located::none(ast::Expression::Identifier(
-                        ast::ScopedIdentifier::trivial(&input_name),
-                    ))),
-                    Box::new(Located::none(ast::Expression::Identifier(
-                        ast::ScopedIdentifier::trivial(&local_name),
-                    ))),
-                )),
-                location: SourceLocation::UNKNOWN,
-                attributes: Vec::new(),
-            });
+            // Arrays can not be initialized from or assigned to each other so are copied by element
+            if param.param_type.input_modifier == ir::InputModifier::InOut && is_array {
+                statements.push(generate_copy_statement(
+                    ast::Expression::Identifier(ast::ScopedIdentifier::trivial(&local_name)),
+                    ast::Expression::Identifier(ast::ScopedIdentifier::trivial(&input_name)),
+                    param.param_type.type_id,
+                    0,
+                    context,
+                ));
+            }
+
+            statements_after.push(generate_copy_statement(
+                ast::Expression::Identifier(ast::ScopedIdentifier::trivial(&input_name)),
+                ast::Expression::Identifier(ast::ScopedIdentifier::trivial(&local_name)),
+                param.param_type.type_id,
+                0,
+                context,
+            ));
 
             params.push(Located::none(ast::Expression::Identifier(
                 ast::ScopedIdentifier::trivial(&local_name),
